@@ -290,7 +290,7 @@ LATER_RULES = {
     "C27": "R27d copy() deep-copies; R27e nested_combine stores every key; R27f unset command-line options do not override config files.",
     "C28": "R28d per-variant tree output; R28e record values set in the iteration that uses them; R28f comment / non-comment lists partition the children; R28g type and text printed in full. R28h machine-readable output keeps the key order; R28i only an empty tuple becomes null.",
     "C29": "R29c matchable class references; R29d a dialect module changes only its own dialect object.",
-    "C30": "R30e same-range patches conflict unless identical; R30f / R30h the slicer's equality pop (after the flush, on the equality only); R30g dedupe key = range + text. R30i overlap test symmetric.",
+    "C30": "R30j the flush loop is conditioned on the head starting strictly before the patch; R30e same-range patches conflict unless identical; R30f / R30h the slicer's equality pop (after the flush, on the equality only); R30g dedupe key = range + text. R30i overlap test symmetric.",
     "C31": "R31c also: an unrecognised newline finder is judged for splitlines() before the table rule gives up. R31d serialised create fixes collapse every coordinate onto the kept end.",
     "C32": "R32d templater objects keep nothing from a file; R32e keyed memos identify every input; R32f setattr only on per-call objects. R32g memoised config loaders keyed on absolute paths.",
     "C33": "R33a also: the seen set only grows; R33c variant / templated-file coherence; R33d CLI listing sorted at the print site; R33e noqa filters preserve order. R33f descriptions embed no templated-file coordinates.",
